@@ -1183,6 +1183,10 @@ class PX:
 
     def binop(self, op, l, r, node):
         f, sym = self.BIN[type(op)]
+        if isinstance(l, _DictItems):  # dict views: keys / items behave as sets, values as a list
+            l = list(l.materialise()) if l.kind == "values" else set(l.materialise())
+        if isinstance(r, _DictItems):
+            r = list(r.materialise()) if r.kind == "values" else set(r.materialise())
         if isinstance(l, Member) and isinstance(r, Member) and isinstance(op, (ast.BitOr, ast.BitAnd, ast.BitXor)) \
                 and l.intlike and r.intlike:
             return Member(l.cls, f"{l.name}{sym}{r.name}", f(l.value, r.value))
@@ -1747,6 +1751,23 @@ class PX:
         if isinstance(fval, TypeRef) and fval.name == "builtins.int.from_bytes" and args and isinstance(args[0], (bytes, bytearray)):
             order = args[1] if len(args) > 1 else kw.get("byteorder", "big")
             return int.from_bytes(bytes(args[0]), order, signed=bool(kw.get("signed", False)))
+        if isinstance(fval, TypeRef) and fval.short == "deserialize" and args and isinstance(args[0], (bytes, bytearray)) and ":" in fval.name:
+            # <repository enum / bitmap class>.deserialize(bytes): the trusted-base codec of the declared width
+            try:
+                ecls = self.repo.cls(*fval.name.rsplit(".", 1)[0].split(":"))
+            except Exception:
+                ecls = None
+            m = None
+            if isinstance(ecls, ClassRef) and ecls.is_enum:
+                for bn in ecls.base_names()[1:]:
+                    m = _re.fullmatch(r"(?:enum|bitmap)(\d+)", bn)
+                    if m:
+                        break
+            if m:
+                nb = int(m.group(1)) // 8
+                if len(args[0]) < nb:
+                    raise Exc("ValueError", ("data too short",), origin=text)
+                return self.construct(ecls, text, [int.from_bytes(bytes(args[0][:nb]), "little")], {}, fr, node), bytes(args[0][nb:])
         if isinstance(fval, TypeRef) and fval.short == "deserialize" and args and isinstance(args[0], (bytes, bytearray)):
             base = TypeRef(fval.name.rsplit(".", 1)[0])
             it = int_type_of(base)
